@@ -1,0 +1,50 @@
+//go:build verif
+
+package series
+
+// C08 (every stored series of a block is found again): the .tso index of a
+// metrics block is a table of (tsid, offset) entries sorted by tsid.
+// getOffsetFromTsoFile is a binary search over a window [low, high] of that
+// table: for a strictly increasing table it reports a tsid found exactly when
+// an entry of the window carries it (for every table size: loop invariant), and
+// then returns that entry's index and offset.  GetTimeSeriesIterator narrows
+// the window with the position of the previous successful lookup; the
+// narrowing is sound only while lastTSidx is the index of lastTSID, which is
+// the reader's representation invariant (tsoCursorInv).
+// Checked by /verif/bin/govc.  Comment-only file.
+
+//@ spec tsoHdr(v byte) int = ite(v == 1, 3, 9)
+//@ spec tsoAt(buf []byte, v byte, i int) uint64 = le64(buf[tsoHdr(v) + 12*i:])
+//@ spec tsoOffAt(buf []byte, v byte, i int) uint32 = le32(buf[tsoHdr(v) + 12*i + 8:])
+//@ spec tsoSorted(buf []byte, v byte, n int) bool = forall(i, 0, n, forall(j, i+1, n, tsoAt(buf, v, i) < tsoAt(buf, v, j)))
+//@ spec tsoWf(buf []byte, v byte, n uint32) bool = (v == 1 || v == 2) && n >= 1 && n <= 67108864 && len(buf) >= tsoHdr(v) + 12*int(n) && tsoSorted(buf, v, int(n))
+
+//@ func getOffsetFromTsoFile
+//@   props C08
+//@   requires tsoWf(tsoBuf, tsoVersion, nTsids) && high < nTsids && low <= high
+//@   loop 1:
+//@     invariant old(low) <= low && high <= old(high) && low <= high + 1 && high < nTsids
+//@     invariant forall(i, int(old(low)), int(low), tsoAt(old(tsoBuf), tsoVersion, i) < tsid)
+//@     invariant forall(i, int(high) + 1, int(old(high)) + 1, tsoAt(old(tsoBuf), tsoVersion, i) > tsid)
+//@     invariant samebase(tsoBuf[0:0], old(tsoBuf)[tsoHdr(tsoVersion):tsoHdr(tsoVersion)]) && len(tsoBuf) == len(old(tsoBuf)) - tsoHdr(tsoVersion)
+//@   site call utils.BytesToUint64LittleEndian #1:
+//@     hint int(mid)
+//@   ensures [found-is-an-entry-of-the-window] implies(result0, low <= result1 && result1 <= high && tsoAt(tsoBuf, tsoVersion, int(result1)) == tsid && result2 == tsoOffAt(tsoBuf, tsoVersion, int(result1)))
+//@   ensures [not-found-means-absent-from-the-window] implies(!result0, forall(i, int(low), int(high) + 1, tsoAt(tsoBuf, tsoVersion, i) != tsid))
+//@   pure
+//@   safe
+//@ end
+
+// cursor of the block reader: once a lookup has succeeded, lastTSidx is the
+// index of lastTSID in the table
+//@ spec tsoCursorInv(r *TimeSeriesBlockReader) bool = implies(!r.first, r.lastTSidx < uint32(r.numTSIDs) && tsoAt(r.rawTSO, r.tsoVersion, int(r.lastTSidx)) == r.lastTSID)
+//@ func (*TimeSeriesBlockReader).GetTimeSeriesIterator
+//@   props C08
+//@   requires tsbr != nil && tsbr.numTSIDs <= 67108864 && tsoWf(tsbr.rawTSO, tsbr.tsoVersion, uint32(tsbr.numTSIDs)) && tsoCursorInv(tsbr)
+//@   site call getOffsetFromTsoFile #1:
+//@     hint int(tsbr.lastTSidx)
+//@   ensures [cursor-stays-on-a-found-entry] tsoCursorInv(tsbr)
+//@   ensures [table-untouched] samebase(tsbr.rawTSO, old(tsbr.rawTSO)) && len(tsbr.rawTSO) == old(len(tsbr.rawTSO)) && tsbr.tsoVersion == old(tsbr.tsoVersion) && tsbr.numTSIDs == old(tsbr.numTSIDs)
+//@   ensures [a-stored-series-is-found] implies(!result1 && (old(tsbr.first) || tsid != old(tsbr.lastTSID)), forall(i, 0, int(tsbr.numTSIDs), tsoAt(tsbr.rawTSO, tsbr.tsoVersion, i) != tsid))
+//@   ensures [found-means-stored] implies(result1, !tsbr.first && tsbr.lastTSID == tsid)
+//@ end
